@@ -32,6 +32,9 @@ func Observe(root *ggql.Root, run *Run, text, op string, vars map[string]interfa
 	return o
 }
 
+// FillFrom canonicalises an already obtained response.
+func (o *Obs) FillFrom(res map[string]interface{}, run *Run) { o.fill(res, run) }
+
 func (o *Obs) fill(res map[string]interface{}, run *Run) {
 	o.Raw = res
 	if d, ok := res["data"]; ok {
